@@ -201,7 +201,7 @@ func (i *interpreter) panicString(v value) string {
 			return s
 		}
 		// error or Stringer?
-		if f := i.prog.LookupMethod(it.t, nil, "Error"); f != nil {
+		if f := i.findMethod(it.t, nil, "Error"); f != nil {
 			var out string
 			func() {
 				defer func() { recover() }()
